@@ -66,9 +66,24 @@ def load_prop(pid: str):
 
 def exec_scn(mod, scn) -> dict:
     """Execute one scenario; harness exceptions are classified, never a pass."""
+    dbg = isinstance(scn, dict) and scn.get("_host_debug_logging")
+    root = logging.getLogger()
+    old_level, old_disable = root.level, root.manager.disable
     try:
         with quiet():
-            out = mod.execute(scn)
+            if dbg:
+                root.setLevel(logging.DEBUG)
+                logging.disable(logging.NOTSET)
+                if not any(isinstance(h, logging.NullHandler) for h in root.handlers):
+                    root.addHandler(logging.NullHandler())
+            try:
+                out = mod.execute(scn)
+            finally:
+                if dbg:
+                    root.setLevel(old_level)
+                    logging.disable(old_disable)
+        if dbg and isinstance(out, dict):
+            out.setdefault("faults", {})["host_debug_logging"] = 1
     except BaseException as e:  # noqa
         if isinstance(e, (KeyboardInterrupt, SystemExit)):
             raise
@@ -115,6 +130,10 @@ def _run_block(pid: str, tier: str, base: int, lo: int, hi: int, deadline: float
             idx = it
             try:
                 scn = mod.generate(random.Random(seed), tier)
+                if isinstance(scn, dict) and seed % 8 == 3:
+                    # an environment dimension shared by all checks (decided by the run's seed, recorded in the scenario so that
+                    # replays keep it): the hosting application runs with DEBUG logging, so every log call formats its arguments
+                    scn.setdefault("_host_debug_logging", True)
             except Exception as e:
                 agg["harness"].append(f"generate(seed={seed}): {type(e).__name__}: {e}\n{traceback.format_exc(limit=8)}")
                 continue
